@@ -127,7 +127,7 @@ def _run(cdir, seed, tier, T, root, log):
     reqs = []
     for i, j in enumerate(jobs):
         reqs.append({"job": j, "fmts": ["noop", "", "goimports"], "oracle": True,
-                     "reps": 3 if i % T["reps_every"] == 0 else 0})
+                     "reps": 8 if j.get("corpus") else (3 if i % T["reps_every"] == 0 else 0)})
     rres = pool.run_jobs(harness, root, reqs, env=env, timeout=120)
     records = []
     for j, f, r in zip(jobs, fres, rres):
